@@ -18,6 +18,9 @@ ASSUMPTIONS = ["NumPy data-movement primitives are dtype-parametric"]
 
 def _label(R, C, dtype):
     a = np.arange(R * C).reshape(R, C)
+    if dtype == "complex128":
+        # imaginary part 2k+1 != 0: a stray conjugation (or a dropped imaginary part) changes the labels
+        return a.astype(np.complex128) + 1j * (2 * a + 1)
     return a.astype(object) if dtype == "object" else a.astype(dtype)
 
 
@@ -77,8 +80,13 @@ def compare(ctx, what, desc, impl, model, thm):
         shape, re, im = split_int(impl[1])
     except NotExact as e:
         return not ctx.violation(f"{what}: output is not a rearrangement of the labels ({e})", {"function": what, "args": desc})
-    if re != model["data"] or any(im) or shape != model["shape"]:
+    cplx_label = desc.get("dtype") == "complex128" and not desc.get("variable")
+    im_ok = (im == [2 * r + 1 for r in re]) if cplx_label else not any(im)
+    if re != model["data"] or not im_ok or shape != model["shape"]:
         bad = [i for i, (a, b) in enumerate(zip(re, model["data"])) if a != b][:5]
+        if re == model["data"] and not im_ok:
+            return not ctx.violation(f"{what}: entries are moved to the right places but their values are changed (imaginary parts differ: conjugated or dropped)",
+                                     {"function": what, "args": desc, "impl_re": re[:32], "impl_im": im[:32], "theorem": thm})
         return not ctx.violation(f"{what}: output differs from the stated index exchange (shape {shape} vs {model['shape']}, first differing flat positions {bad})",
                                  {"function": what, "args": desc, "impl": re[:64], "model": model["data"][:64], "impl_shape": shape, "model_shape": model["shape"], "theorem": thm})
     return True
